@@ -594,5 +594,7 @@ func TestMC(t *testing.T) {
 		p.exec, p.maxPre = true, 2
 		scs = append(scs, scenario(p, map[string]int{"quick": 0, "thorough": -1}))
 	}
+	// Interleaved Resume calls of overlapping suspensions (overlap_test.go).
+	scs = append(scs, overlapScenario(2, 3), overlapScenario(3, 2))
 	mc.Main(t, scs, seqs())
 }
